@@ -249,7 +249,7 @@ CLAIMED = {
     "C10": (
         "TLC refinement check SlotsImpl.tla => Slots.tla (+ bug-switch counterexamples); inductive invariant of the "
         "set-based allocator model SlotsInd.tla discharged symbolically by Apalache (channel_max 1..8, tied to "
-        "SlotsImpl by TLC); TLC-generated graph-walk cases replayed on the real ChannelSlots and end to end; TLC "
+        "SlotsImpl by TLC) and proved for every channel_max with TLAPS (SlotsProof.tla, 97 obligations); TLC-generated graph-walk cases replayed on the real ChannelSlots and end to end; TLC "
         "trace validation against Slots.tla",
         "TLC proves for channel_max 3 and 4 (thorough 5) that the implementation-shaped allocator model (counter, "
         "ordered freed set) refines the property-level allocator for all operation sequences, and that each of the "
